@@ -189,7 +189,7 @@ open Tealer.BlockShape Tealer.Reach Tealer.Avm
 def CallsOk (prog : List Ins) (calls : List Nat) : Prop :=
   ∀ a ∈ calls, ∃ c l, a = c + 1 ∧ ∃ i, prog[c]? = some i ∧ i.op = .callsub l
 
-theorem stepOther_calls (s s' : State) (name : String) (h : stepOther s name = .next s') : s'.calls = s.calls := by
+theorem stepOther_calls (e : Env) (s s' : State) (name : String) (h : stepOther e s name = .next s') : s'.calls = s.calls := by
   unfold stepOther at h
   simp only [] at h
   repeat' split at h
@@ -222,7 +222,7 @@ theorem callsOk_step (prog : List Ins) (e : Env) (s s' : State) (h : CallsOk pro
         exact h a (List.dropLast_subset _ ha)
       · cases hs
     case other name po pu =>
-      rw [stepOther_calls s s' name hs]; exact h
+      rw [stepOther_calls e s s' name hs]; exact h
     all_goals
       repeat' split at hs
     all_goals first
